@@ -54,6 +54,22 @@ func (t *tr) evalBinary(e *ast.BinaryExpr) *val {
 	case token.EQL, token.NEQ, token.LSS, token.LEQ, token.GTR, token.GEQ:
 		// x.Cmp(y) op k   /   x.Sign() op k
 		if ce, ok := unparen(e.X).(*ast.CallExpr); ok {
+			if se, ok := ce.Fun.(*ast.SelectorExpr); ok && t.g.loops && se.Sel.Name == "Bit" && len(ce.Args) == 1 {
+				if recv := t.eval(se.X); recv.t.k == kZ {
+					// s.Bit(i) == 1 / != 0 ...: big.Int.Bit is two's complement, as Z.testbit
+					k, ok := intLit(e.Y)
+					if !ok || (k != "0" && k != "1") || (e.Op != token.EQL && e.Op != token.NEQ) {
+						t.fail("a Bit result must be compared with 0 or 1 by == or !=: %s", exprText(e))
+					}
+					i := t.eval(ce.Args[0])
+					t.exactInt(i, "bit index")
+					b := "Z.testbit " + par(t.valueOf(recv)) + " " + par(t.asZ(i))
+					if (k == "1") != (e.Op == token.EQL) {
+						b = "negb (" + b + ")"
+					}
+					return &val{t: tBool, e: b}
+				}
+			}
 			if se, ok := ce.Fun.(*ast.SelectorExpr); ok && (se.Sel.Name == "Cmp" || se.Sel.Name == "Sign") {
 				recv := t.eval(se.X)
 				if recv.t.k == kZ {
@@ -84,11 +100,24 @@ func (t *tr) evalBinary(e *ast.BinaryExpr) *val {
 		case x.t.k == kByte && (y.t.k == kByte || y.t.k == kInt):
 			return &val{t: tBool, e: t.relZ(e.Op, "0", x.e, zLit(y.e))}
 		case x.t.k == kInt && y.t.k == kInt:
+			if t.g.loops {
+				t.exactInt(x, "operand of a comparison")
+				t.exactInt(y, "operand of a comparison")
+			}
 			return &val{t: tBool, e: t.relInt(e.Op, x, y)}
 		}
 		t.fail("unsupported comparison %s (operand types %s, %s)", exprText(e), x.t, y.t)
-	case token.ADD:
+	case token.ADD, token.SUB, token.MUL, token.QUO, token.REM:
 		x, y := t.eval(e.X), t.eval(e.Y)
+		if t.g.loops && x.t.k == kInt && y.t.k == kInt {
+			return t.intArith(e.Op, x, y, e)
+		}
+		if t.g.loops && e.Op == token.ADD && x.t.k == kString && y.t.k == kString && x.hasStr && y.hasStr {
+			return &val{t: tString, str: x.str + y.str, hasStr: true}
+		}
+		if e.Op != token.ADD {
+			t.fail("unsupported binary expression %s", exprText(e))
+		}
 		if x.t.k == kInt && y.t.k == kInt {
 			if (x.nat || x.lit) && (y.nat || y.lit) {
 				return &val{t: tInt, nat: true, e: "Nat.add " + par(x.e) + " " + par(y.e)}
@@ -149,6 +178,11 @@ func (t *tr) constIndex(e ast.Expr, n int) int {
 
 func (t *tr) evalIndex(e *ast.IndexExpr) *val {
 	x := t.eval(e.X)
+	if t.g.loops {
+		if _, lit := intLit(e.Index); !lit || x.t.k == kList || (x.t.k == kZList && x.c != nil) || x.t.k == kSlice {
+			return t.indexLoops(e, x)
+		}
+	}
 	switch x.t.k {
 	case kArr, kArrPtr:
 		i := t.constIndex(e.Index, x.t.n)
@@ -170,6 +204,13 @@ func (t *tr) evalSlice(e *ast.SliceExpr) *val {
 		t.fail("3-index slice")
 	}
 	x := t.eval(e.X)
+	if t.g.loops {
+		_, l1 := intLit(e.Low)
+		_, l2 := intLit(e.High)
+		if (e.Low != nil && !l1) || (e.High != nil && !l2) {
+			return t.sliceLoops(e, x)
+		}
+	}
 	n := 0
 	switch x.t.k {
 	case kArr, kArrPtr:
@@ -242,6 +283,19 @@ func (t *tr) evalComposite(e *ast.CompositeLit) *val {
 			parts = append(parts, t.valueOf(v))
 		}
 		return &val{t: tZList, e: "[" + strings.Join(parts, "; ") + "]"}
+	case kList:
+		if !t.g.loops {
+			break
+		}
+		var parts []string
+		for _, el := range e.Elts {
+			v := t.eval(el)
+			if !compat(ty.elem, v.t) {
+				t.fail("list element of type %s, expected %s", v.t, ty.elem)
+			}
+			parts = append(parts, t.valueOf(v))
+		}
+		return &val{t: ty, e: "[" + strings.Join(parts, "; ") + "]"}
 	case kStruct:
 		if ty.ptr {
 			t.fail("composite literal of pointer type")
@@ -280,6 +334,9 @@ func (t *tr) evalComposite(e *ast.CompositeLit) *val {
 
 // asZ: an int value as a Z expression.
 func (t *tr) asZ(v *val) string {
+	if v.trunc {
+		t.exactInt(v, "value")
+	}
 	if v.nat {
 		return "Z.of_nat " + par(v.e)
 	}
